@@ -34,6 +34,8 @@ impl<'t> State<'t> {
 }
 impl<'tera> VirtualMachine<'tera> {
     #[verifier::external_body]
+    pub fn rendering_error(&self, msg: String, chunk: &Chunk, span: &Span) -> Error { unimplemented!() }
+    #[verifier::external_body]
     pub fn undefined_var_error(&self, state: &State<'tera>, chunk: &Chunk, name: &str, span: &Span) -> Error { unimplemented!() }
     #[verifier::external_body]
     pub fn undefined_field_error(&self, parent: &Value, attr: &str, span: &Span, chunk: &Chunk) -> Error { unimplemented!() }
@@ -52,4 +54,127 @@ pub open spec fn follow(v: Value, path: Seq<String>, upto: int) -> Option<Value>
     if upto <= 0 { Some(v) } else {
         match follow(v, path, upto - 1) { Some(c) => c.attr_spec(path[upto]@), None => None }
     }
+}
+
+// ---- LoadPath: the one-level-undefined rule over a whole path
+/// walking attributes path[k+1..=n] from cur: an undefined intermediate value or a missing *inner*
+/// field is an error; a missing *last* field is undefined (not an error)
+pub open spec fn lp_walk(cur: Value, path: Seq<String>, k: int, n: int) -> Result<Value, ()>
+    decreases n - k
+{
+    if k >= n { Ok(cur) }
+    else if cur.undefined_spec() { Err(()) }
+    else {
+        match cur.attr_spec(path[k + 1]@) {
+            Some(next) => lp_walk(next, path, k + 1, n),
+            None => if k + 1 < n { Err(()) } else { Ok(Value::the_undefined()) },
+        }
+    }
+}
+impl Value {
+    pub uninterp spec fn the_undefined() -> Value;
+    #[verifier::external_body]
+    pub fn undefined() -> (r: Value) ensures r == Self::the_undefined(), r.undefined_spec() { unimplemented!() }
+}
+impl Clone for Value { #[verifier::external_body] fn clone(&self) -> (r: Value) ensures r == *self { unimplemented!() } }
+
+// ---- C09, semantic half at the level of the arm contracts: the fused arms compute what the
+// unfused sequence LoadName; LoadAttr*; (WriteTop) computes (modulo error message and position).
+/// the (non-optional) LoadAttr arm's contract as a function: undefined base => error, else the
+/// attribute or undefined
+pub open spec fn la_step(a: Value, attr: Seq<char>) -> Result<Value, ()> {
+    if a.undefined_spec() { Err(()) } else { Ok(match a.attr_spec(attr) { Some(v) => v, None => Value::the_undefined() }) }
+}
+/// LoadName; LoadAttr(path[k+1]); ...; LoadAttr(path[n]) run one after the other from cur
+pub open spec fn seq_walk(cur: Value, path: Seq<String>, k: int, n: int) -> Result<Value, ()>
+    decreases n - k
+{
+    if k >= n { Ok(cur) } else {
+        match la_step(cur, path[k + 1]@) { Ok(v) => seq_walk(v, path, k + 1, n), Err(e) => Err(e) }
+    }
+}
+/// facts about Value that the lemmas rest on: `Value::undefined()` is undefined (its contract), and
+/// an undefined value has no attributes (`get_attr` looks into maps only)
+pub open spec fn value_facts() -> bool {
+    &&& Value::the_undefined().undefined_spec()
+    &&& forall|v: Value, a: Seq<char>| v.undefined_spec() ==> (#[trigger] v.attr_spec(a)) is None
+}
+/// LoadPath == LoadName; LoadAttr*   (same success/failure, same value)
+pub proof fn lemma_load_path_is_sequential(cur: Value, path: Seq<String>, k: int, n: int)
+    requires value_facts(), 0 <= k <= n
+    ensures
+        lp_walk(cur, path, k, n) is Ok == seq_walk(cur, path, k, n) is Ok,
+        lp_walk(cur, path, k, n) is Ok ==> lp_walk(cur, path, k, n)->Ok_0 == seq_walk(cur, path, k, n)->Ok_0,
+    decreases n - k
+{
+    if k < n && !cur.undefined_spec() {
+        match cur.attr_spec(path[k + 1]@) {
+            Some(next) => { lemma_load_path_is_sequential(next, path, k + 1, n); }
+            None => {
+                // unfused: undefined is pushed, and the next LoadAttr (if any) fails on it
+                if k + 1 < n { assert(seq_walk(Value::the_undefined(), path, k + 1, n) is Err); }
+            }
+        }
+    }
+}
+/// what WritePath renders / whether it fails, as a function (its arm contract)
+pub open spec fn write_path_result(root: Value, path: Seq<String>, n: int) -> Option<Value> {
+    if root.undefined_spec() { None } else {
+        match follow(root, path, n) { Some(v) => if v.undefined_spec() { None } else { Some(v) }, None => None }
+    }
+}
+/// what LoadPath; WriteTop renders / whether it fails (their arm contracts composed)
+pub open spec fn load_then_write_result(root: Value, path: Seq<String>, n: int) -> Option<Value> {
+    if n == 0 { if root.undefined_spec() { None } else { Some(root) } }
+    else if root.undefined_spec() { None }
+    else { match lp_walk(root, path, 0, n) { Ok(v) => if v.undefined_spec() { None } else { Some(v) }, Err(_) => None } }
+}
+pub proof fn lemma_follow_vs_walk(cur: Value, path: Seq<String>, k: int, n: int)
+    requires value_facts(), 0 <= k <= n
+    ensures
+        // walking from position k: follow succeeds with a defined value iff lp_walk does, same value
+        ({
+            let f = follow_from(cur, path, k, n);
+            let w = lp_walk(cur, path, k, n);
+            &&& (f is Some && !f->Some_0.undefined_spec()) == (w is Ok && !w->Ok_0.undefined_spec())
+            &&& (f is Some && !f->Some_0.undefined_spec()) ==> f->Some_0 == w->Ok_0
+        }),
+    decreases n - k
+{
+    if k < n {
+        if cur.undefined_spec() {
+            assert(cur.attr_spec(path[k + 1]@) is None);
+        } else {
+            match cur.attr_spec(path[k + 1]@) {
+                Some(next) => { lemma_follow_vs_walk(next, path, k + 1, n); }
+                None => { }
+            }
+        }
+    }
+}
+/// follow, counted from position k (follow(v, path, n) == follow_from(v, path, 0, n))
+pub open spec fn follow_from(cur: Value, path: Seq<String>, k: int, n: int) -> Option<Value>
+    decreases n - k
+{
+    if k >= n { Some(cur) } else {
+        match cur.attr_spec(path[k + 1]@) { Some(next) => follow_from(next, path, k + 1, n), None => None }
+    }
+}
+pub proof fn lemma_follow_from(v: Value, path: Seq<String>, k: int, n: int)
+    requires 0 <= k <= n
+    ensures follow(v, path, n) == (match follow(v, path, k) { Some(c) => follow_from(c, path, k, n), None => None })
+    decreases n - k
+{
+    if k < n {
+        lemma_follow_from(v, path, k + 1, n);
+        // follow(v, path, k+1) unfolds to follow(v, path, k) then one attribute
+    }
+}
+/// WritePath == LoadPath; WriteTop   (same success/failure, same value written)
+pub proof fn lemma_write_path_is_load_then_write(root: Value, path: Seq<String>, n: int)
+    requires value_facts(), 0 <= n
+    ensures write_path_result(root, path, n) == load_then_write_result(root, path, n)
+{
+    lemma_follow_vs_walk(root, path, 0, n);
+    lemma_follow_from(root, path, 0, n);
 }
